@@ -174,7 +174,7 @@ Definition create_style_string (s : sgr_state) : str :=
      ++ (if d_reverse s then [s_reverse] else [])
      ++ (if d_hidden s then [s_hidden] else [])).
 
-(* ANSI._parse_corot restricted to text without \001 (ZeroWidthEscape
+(* (CSI numbers: csi_number, Lib/C19_Str.v)  ANSI._parse_corot restricted to text without \001 (ZeroWidthEscape
    brackets are C18's subject): ground characters, ESC [, \x9b, CSI
    parameters, final bytes m and C.  Result: the fragment list, or None when
    the text contains \001. *)
@@ -205,7 +205,7 @@ Fixpoint parse_loop (text : str) (ps : pstate) (st : sgr_state) (style : str)
       | InCsi current params =>
           if is_digit c then parse_loop r (InCsi (current ++ [c]) params) st style acc
           else
-            let params' := params ++ [Z.min (int10 current) 9999] in
+            let params' := params ++ [csi_number current] in
             if c =? 59 then parse_loop r (InCsi [] params') st style acc
             else if c =? 109 then
               let st' := select_graphic_rendition params' st in
